@@ -384,7 +384,7 @@ func (e *lfEngine) builtin(fr *lfFrame, st *lfState, x *ssa.Call, name string) l
 		if b, ok := e.asSlice(st, e.val(fr, st, args[1]), args[1].Type(), valueName(args[1])); ok {
 			st.cons = append(st.cons, leq(n, b))
 		}
-		if e.bits && e.onStore != nil && e.quiet == 0 {
+		if e.bits && e.emitting() {
 			dv, _ := e.val(fr, st, args[0]).(vSlice)
 			src := e.renderVal(e.val(fr, st, args[1]))
 			// []byte(string field), or the string field itself (copy accepts a string source)
@@ -836,7 +836,7 @@ func (e *lfEngine) bitsIntercept(fr *lfFrame, st *lfState, x *ssa.Call, name str
 	cc := &x.Call
 	args := callArgs(cc)
 	emit := func(kind, n, v string, b ...*bv) {
-		if e.onStore != nil && e.quiet == 0 {
+		if e.emitting() {
 			var bb *bv
 			if len(b) > 0 {
 				bb = b[0]
@@ -857,7 +857,7 @@ func (e *lfEngine) bitsIntercept(fr *lfFrame, st *lfState, x *ssa.Call, name str
 		}
 		bn := e.bufName(st, kind)
 		emit("len", bn, e.linString(n))
-		if e.onStore != nil && e.quiet == 0 && len(st.events) > 0 {
+		if e.emitting() && len(st.events) > 0 {
 			nn := n
 			st.events[len(st.events)-1].L = &nn
 		}
@@ -874,7 +874,7 @@ func (e *lfEngine) bitsIntercept(fr *lfFrame, st *lfState, x *ssa.Call, name str
 			st.heap["#buflen"] = vInt{E: s}
 		}
 		bn := e.bufName(st, "buf")
-		if e.onStore != nil && e.quiet == 0 {
+		if e.emitting() {
 			e.onStore(st, "len", bn, e.linString(s), x.Pos(), nil)
 			ss := s
 			st.events[len(st.events)-1].L = &ss
